@@ -1,0 +1,126 @@
+//go:build verif
+
+// Contracts for package types, checked by /verif/govc (comment-only file; no code).
+package types
+
+// ---------------------------------------------------------------- audit log parts algebra (C19)
+
+// The canonical order table is a package-level variable whose initial contents govc does not know: what the
+// functions need about it (10 entries 'B'..'K' in alphabetical order) is stated as a precondition.
+// (Spelled out entry by entry: the solvers then have the ten ground terms they need to find the witness of
+// slices.Contains's existential.)
+//@ define OrderedPartsInit() bool := len(orderedAuditLogParts) == 10 &&
+//@     orderedAuditLogParts[0] == 'B' && orderedAuditLogParts[1] == 'C' && orderedAuditLogParts[2] == 'D' && orderedAuditLogParts[3] == 'E' &&
+//@     orderedAuditLogParts[4] == 'F' && orderedAuditLogParts[5] == 'G' && orderedAuditLogParts[6] == 'H' && orderedAuditLogParts[7] == 'I' &&
+//@     orderedAuditLogParts[8] == 'J' && orderedAuditLogParts[9] == 'K'
+
+//@ define isMiddlePart(c int) bool := 'B' <= c && c <= 'K'
+
+// WellFormedParts: first part 'A', last part 'Z', everything in between one of B..K.
+//@ define WellFormedStr(s string) bool := len(s) >= 2 && s[0] == 'A' && s[len(s)-1] == 'Z' &&
+//@     (forall k int :: 1 <= k && k < len(s) - 1 ==> isMiddlePart(s[k]))
+
+//@ func ParseAuditLogParts props C19,C07
+//@   requires OrderedPartsInit()
+//@   modifies nothing
+//@   ensures same: isnil(result1) ==> len(result0) == len(opts) && (forall k int :: 0 <= k && k < len(opts) ==> result0[k] == opts[k])
+//@   ensures wellFormed: isnil(result1) ==> WellFormedStr(opts)
+//@   ensures accepts: WellFormedStr(opts) ==> isnil(result1)
+// every byte of the middle section passed so far is one of B..K
+//@   loop 1
+//@     invariant 0 <= rangepos && rangepos <= len(middleParts) && middleParts == opts[1:len(opts)-1] && len(opts) >= 2
+//@     invariant forall k int :: 1 <= k && k < 1 + rangepos ==> isMiddlePart(opts[k])
+
+// ---- ApplyAuditLogParts: "+XY" / "-XY" edits of a well-formed parts value (ctl:auditLogParts)
+
+//@ define WellFormedParts(p AuditLogParts) bool := len(p) >= 2 && p[0] == 'A' && p[len(p)-1] == 'Z' &&
+//@     (forall k int :: 1 <= k && k < len(p) - 1 ==> isMiddlePart(p[k]))
+//@ define hasPart(p AuditLogParts, c int) bool := exists k int :: 0 <= k && k < len(p) && p[k] == c
+// names(m, c): the +/- modification m names part c (m[0] is the sign)
+//@ define names(m string, c int) bool := exists k int :: 1 <= k && k < len(m) && m[k] == c
+// among12(p, c): c is one of the first twelve parts of p (the result of a +/- change never has more: A, B..K, Z;
+// spelled out so that the proofs need no existential witness across append's reallocation)
+//@ define among12(p []AuditLogPart, c int) bool := (len(p) > 0 && p[0] == c) || (len(p) > 1 && p[1] == c) || (len(p) > 2 && p[2] == c) ||
+//@     (len(p) > 3 && p[3] == c) || (len(p) > 4 && p[4] == c) || (len(p) > 5 && p[5] == c) || (len(p) > 6 && p[6] == c) ||
+//@     (len(p) > 7 && p[7] == c) || (len(p) > 8 && p[8] == c) || (len(p) > 9 && p[9] == c) || (len(p) > 10 && p[10] == c) || (len(p) > 11 && p[11] == c)
+//@ define isDelta(m string) bool := len(m) >= 1 && (m[0] == '+' || m[0] == '-')
+
+// An absolute value goes through ParseAuditLogParts. A +/- change is accepted iff every named part is one of B..K
+// ('A' and 'Z' are mandatory and can be neither added nor removed); the result of an accepted change on a
+// well-formed base is well-formed again (A first, Z last) and its middle parts are exactly base's middle parts
+// plus / minus the named ones, in canonical (alphabetical) order without repetition. The base is not written.
+//@ func ApplyAuditLogParts props C19,C07
+//@   requires OrderedPartsInit()
+//@   modifies nothing
+//@   ensures empty: modification == "" ==> !isnil(result1)
+//@   ensures absolute: len(modification) >= 1 && !isDelta(modification) ==> (isnil(result1) <==> WellFormedStr(modification))
+//@   ensures absoluteSame: len(modification) >= 1 && !isDelta(modification) && isnil(result1) ==>
+//@       len(result0) == len(modification) && (forall k int :: 0 <= k && k < len(modification) ==> result0[k] == modification[k])
+//@   ensures deltaAccepted: isDelta(modification) ==>
+//@       (isnil(result1) <==> (forall k int :: 1 <= k && k < len(modification) ==> isMiddlePart(modification[k])))
+//@   ensures wellFormedResult: isDelta(modification) && WellFormedParts(base) && isnil(result1) ==> WellFormedParts(result0)
+// (added, in three parts: nothing else appears / base's parts stay / the named parts are there -- among12 implies hasPart)
+//@   ensures addedOnly: modification != "" && modification[0] == '+' && isnil(result1) ==>
+//@       (forall c byte :: isMiddlePart(c) && hasPart(result0, c) ==> (hasPart(base, c) || names(modification, c)))
+//@   ensures addedKeepsBase: modification != "" && modification[0] == '+' && isnil(result1) ==>
+//@       (forall c byte :: isMiddlePart(c) && hasPart(base, c) ==> among12(result0, c))
+//@   ensures addedNamed: modification != "" && modification[0] == '+' && isnil(result1) ==>
+//@       (forall k int :: 1 <= k && k < len(modification) ==> among12(result0, modification[k]))
+// (removed, in two parts: only un-named parts of base remain / every un-named part of base remains)
+//@   ensures removedOnly: modification != "" && modification[0] == '-' && isnil(result1) ==>
+//@       (forall c byte :: isMiddlePart(c) && hasPart(result0, c) ==> (hasPart(base, c) && !names(modification, c)))
+//@   ensures removedKeepsRest: modification != "" && modification[0] == '-' && isnil(result1) ==>
+//@       (forall c byte :: isMiddlePart(c) && hasPart(base, c) && !names(modification, c) ==> among12(result0, c))
+//@   ensures canonical: isDelta(modification) && isnil(result1) ==>
+//@       (forall i int, j int :: 0 <= i && i < j && j < len(result0) && isMiddlePart(result0[i]) && isMiddlePart(result0[j]) ==> result0[i] < result0[j])
+//@   ensures baseKept: len(base) == old(len(base)) && (forall k int :: 0 <= k && k < len(base) ==> base[k] == old(base[k]))
+// (intermediate assertions where the two branches meet: they split the proof of added* / removed)
+//@   at "make([]AuditLogPart, 0, len(partsMap))" requires allNamedValid: forall k int :: 1 <= k && k < len(modification) ==> isMiddlePart(modification[k])
+//@   at "make([]AuditLogPart, 0, len(partsMap))" requires namedAreIn: modification[0] == '+' ==> (forall k int :: 1 <= k && k < len(modification) ==> has(partsMap, modification[k]))
+// loop 1 (validation): every byte of the modification passed so far names one of B..K
+//@   loop 1
+//@     invariant 0 <= rangepos && rangepos <= len(partsToModify) && partsToModify == modification[1:len(modification)] && isDelta(modification)
+//@     invariant forall k int :: 1 <= k && k < 1 + rangepos ==> isMiddlePart(modification[k])
+// loop 2: the lookup set holds exactly the parts of base seen so far
+//@   loop 2
+//@     invariant -1 <= rangeindex && rangeindex < len(base)
+//@     invariant forall k int :: 0 <= k && k <= rangeindex ==> has(partsMap, base[k])
+//@     invariant forall c byte :: has(partsMap, c) ==> (exists k int :: 0 <= k && k <= rangeindex && base[k] == c)
+// loop 3 (additions): the set is base's parts plus the parts named so far
+//@   loop 3
+//@     invariant 0 <= rangepos && rangepos <= len(partsToModify)
+//@     invariant forall k int :: 0 <= k && k < len(base) ==> has(partsMap, base[k])
+//@     invariant forall k int :: 1 <= k && k < 1 + rangepos ==> has(partsMap, modification[k])
+//@     invariant forall c byte :: has(partsMap, c) ==> (hasPart(base, c) || (exists k int :: 1 <= k && k < 1 + rangepos && modification[k] == c))
+// loop 4 (removals): the set is base's parts minus the parts named so far
+//@   loop 4
+//@     invariant 0 <= rangepos && rangepos <= len(partsToModify)
+//@     invariant forall c byte :: has(partsMap, c) ==> hasPart(base, c)
+//@     invariant forall k int :: 1 <= k && k < 1 + rangepos ==> !has(partsMap, modification[k])
+//@     invariant forall k int :: 0 <= k && k < len(base) ==> (has(partsMap, base[k]) || (exists j int :: 1 <= j && j < 1 + rangepos && modification[j] == base[k]))
+// loop 5: result = ['A' if it is in the set] followed by the parts B.. up to the current one that are in the set, ascending
+//@   loop 5
+//@     invariant -1 <= rangeindex && rangeindex < 10 && OrderedPartsInit()
+//@     invariant fresh(result) && len(result) <= rangeindex + 2
+//@     invariant has(partsMap, 'A') ==> len(result) >= 1 && result[0] == 'A'
+//@     invariant modification[0] == '+' ==> (forall k int :: 1 <= k && k < len(modification) ==> isMiddlePart(modification[k]) && has(partsMap, modification[k]))
+//@     invariant forall j int :: ite(has(partsMap, 'A'), 1, 0) <= j && j < len(result) ==> 'B' <= result[j] && result[j] <= 'B' + rangeindex && has(partsMap, result[j])
+//@     invariant forall i int, j int :: 0 <= i && i < j && j < len(result) ==> result[i] < result[j]
+// (one conjunct per part instead of a quantifier: after the if/else the lookup set is a merged (ite) term that the
+// solvers cannot use in a trigger)
+//@     invariant rangeindex >= 0 && has(partsMap, 'B') ==> among12(result, 'B')
+//@     invariant rangeindex >= 1 && has(partsMap, 'C') ==> among12(result, 'C')
+//@     invariant rangeindex >= 2 && has(partsMap, 'D') ==> among12(result, 'D')
+//@     invariant rangeindex >= 3 && has(partsMap, 'E') ==> among12(result, 'E')
+//@     invariant rangeindex >= 4 && has(partsMap, 'F') ==> among12(result, 'F')
+//@     invariant rangeindex >= 5 && has(partsMap, 'G') ==> among12(result, 'G')
+//@     invariant rangeindex >= 6 && has(partsMap, 'H') ==> among12(result, 'H')
+//@     invariant rangeindex >= 7 && has(partsMap, 'I') ==> among12(result, 'I')
+//@     invariant rangeindex >= 8 && has(partsMap, 'J') ==> among12(result, 'J')
+//@     invariant rangeindex >= 9 && has(partsMap, 'K') ==> among12(result, 'K')
+//@     invariant forall k int :: 0 <= k && k < len(base) ==> base[k] == old(base[k])
+
+// ---------------------------------------------------------------- severities (C19: HIGHEST_SEVERITY)
+//@ func (RuleSeverity).Int props C19,C07
+//@   modifies nothing
+//@   ensures result == rs
